@@ -376,16 +376,17 @@ func (e *quarEnv) exec(line string) string {
 				return err
 			}
 			key := func(qf *quarantine.QuarantinedFunds) string {
-				var ns []string
+				var ns, inOrder []string
 				for _, a := range qf.UnacceptedFromAddresses {
 					ns = append(ns, e.name(sdk.MustAccAddressFromBech32(a)))
 				}
+				inOrder = append(inOrder, ns...)
 				sort.Strings(ns)
 				d := "0"
 				if qf.Declined {
 					d = "1"
 				}
-				return e.name(sdk.MustAccAddressFromBech32(qf.ToAddress)) + "<" + JoinOr(ns, "+") + "/" + CoinsStrDenomOrder(qf.Coins) + "/" + d
+				return e.name(sdk.MustAccAddressFromBech32(qf.ToAddress)) + "<" + JoinOr(ns, "+") + "/" + CoinsStrDenomOrder(qf.Coins) + "/" + d + "/" + JoinOr(inOrder, ",")
 			}
 			sort.SliceStable(gs.QuarantinedFunds, func(i, j int) bool { return key(gs.QuarantinedFunds[i]) < key(gs.QuarantinedFunds[j]) })
 			st := ctx.KVStore(e.app.GetKey(quarantine.StoreKey))
